@@ -15,7 +15,9 @@ EVIDENCE = dict(
          "changed); links whose mapping names no controller are fed too. Trace_RVMultiCtl checks outcome, range and "
          "monotonicity. Windows of compact-range targets are expressed in target steps (0..span), as the library's own "
          "macro helper and tests do (wider windows: only the range clause). Fan-outs are also fed after the project went "
-         "through a file, with targets that have other inputs, and after an unrelated failed load. non-trivial = a feed that delivers more than one distinct value, or a refusal.",
+         "through a file, with targets that have other inputs, and after an unrelated failed load. MC_RVSystem (focus multictl) "
+         "is simulated and its behaviours (attach, connect / disconnect the MultiCtl, set mappings, save+load, feed) are replayed "
+         "on real objects: a feed reaches exactly the live out slots whose mapping names a controller. non-trivial = a feed that delivers more than one distinct value, or a refusal.",
     explanation="value axis enumerated completely for each sampled parameter tuple")
 
 GAINS = [0, 1, 100, 255, 256, 257, 333, 512, 1024]
@@ -139,6 +141,11 @@ def run(ctx):
     if res.invariant_violated or res.property_violated:
         ctx.violation("model:" + str(res.invariant_violated or res.property_violated), "MC_RVMultiCtl", res.counterexample[:2000])
     ctx.add_mc("mc_multictl", res, "ConvertExact over the complete input axis for the grid")
+    # the composed workspace model, concentrated on the MultiCtl: attach / connect and disconnect the MultiCtl / mappings /
+    # save+load / feed - simulated behaviours replayed through the public API (mapping i belongs to out slot i; a freed slot
+    # reaches nobody)
+    from .. import system
+    system.simulate_and_replay(ctx, 200 if q else 5000, 14 if q else 22, focus="multictl")
     classes = dict(rv.modules.MODULE_CLASSES)
     events = []
     # ---- macro: every (type, controller) target
